@@ -4,7 +4,7 @@ try:
 except NameError:
     def assume(cond):
         return None
-from glom.core import (glom, T, S, A, UP, Path, TType, TargetRegistry, PathAccessError, PathAssignError, arg_val, GlomError, _assign_op)
+from glom.core import (glom, T, S, A, UP, Val, Path, TType, TargetRegistry, PathAccessError, PathAssignError, arg_val, GlomError, _assign_op)
 from glom.mutation import PathDeleteError, Assign, Delete, _apply_for_each
 
 
@@ -48,7 +48,8 @@ def delete_ref(self, target, scope):
         if not self.ignore_missing:
             raise
         return target
-    apply_for_each_ref(lambda element: self._del_one(element, self.op, self.arg, scope), self.path, parent)
+    op, arg = self.op, self.arg
+    _apply_for_each(lambda dest: self._del_one(dest, op, arg, scope), self.path, parent)
     return target
 
 
@@ -83,32 +84,30 @@ def assign_op_ref(dest, op, arg, val, path, scope):
 
 
 def assign_ref(self, target, scope):
-    """wildcard-free, no `missing`: evaluate the value once (argument mode), fetch the parent, perform exactly one store,
-    return the very target"""
-    value = arg_val(target, self.val, scope)
+    """evaluate the value once (argument mode), fetch the parent of the addressed element, perform the store(s) through
+    _assign_op at every match, return the very target.  With `missing` and an absent segment k: the tail is built first on a
+    fresh object from the factory (innermost assignment first, the already evaluated value is NOT evaluated again), then attached
+    by a single store at the break point"""
+    val = arg_val(target, self.val, scope)
     if self.path.startswith(S):
         base = scope[UP]
         parent_path = self.path.from_t()
     else:
         base = target
         parent_path = self.path
+    op, arg, path = self.op, self.arg, self.path
     try:
-        parent = scope[glom](base, parent_path, scope)
+        dest = scope[glom](base, parent_path, scope)
     except PathAccessError as pae:
         if not self.missing:
             raise
-        # absent segments: build the tail first (innermost assignment first) on a fresh object from the factory, evaluating
-        # nothing twice, then attach it by a single store at the break point
         k = pae.part_idx
         tail_path = self._orig_path[k + 1:]
-        fresh = self.missing()
-        built = scope[glom](fresh, Assign(tail_path, Val(value), missing=self.missing), scope)
-        op_arg = self._orig_path.items()[k]
-        attach_path = self._orig_path[:k]
-        parent = scope[glom](base, attach_path, scope)
-        _assign_op(dest=parent, op=op_arg[0], arg=op_arg[1], val=built, path=attach_path, scope=scope)
-        return target
-    _assign_op(dest=parent, op=self.op, arg=self.arg, val=value, path=self.path, scope=scope)
+        val = scope[glom](self.missing(), Assign(tail_path, Val(val), missing=self.missing), scope)
+        op, arg = self._orig_path.items()[k]
+        path = self._orig_path[:k]
+        dest = scope[glom](base, path, scope)
+    _apply_for_each(lambda dest: _assign_op(dest=dest, op=op, arg=arg, val=val, path=path, scope=scope), path, dest)
     return target
 
 
